@@ -67,6 +67,9 @@ pub struct ReplayFile {
 
 pub const ENGINE_VERSION: u32 = 1;
 
+/// properties whose inputs are adversarial: panics are identified by source file + panic kind (see DESIGN.md 7)
+pub const COARSE_SIGNATURES: [&str; 7] = ["C06", "C14", "C15", "C16", "C17", "C23", "C39"];
+
 fn install_hooks(cfg: &Cfg) {
     automerge::verif_hooks::install(automerge::verif_hooks::Controller {
         actor_stream: Some(0xAC70_0000_0000_0000 ^ cfg.p1 as u64),
@@ -128,7 +131,7 @@ pub fn execute_with(prop: &PropDef, cfg: &Cfg, evs: &[Ev], mut oracle: Box<dyn O
                     oracle: "no_panic".into(),
                     // byzantine-input properties identify a finding by the source file that panics: the tail of
                     // distinct unwrap/index sites inside one decoder is long and input-dependent
-                    signature: if prop.abort_prone { p.coarse_signature() } else { p.signature() },
+                    signature: if COARSE_SIGNATURES.contains(&prop.id) { p.coarse_signature() } else { p.signature() },
                     step: p.step,
                     detail: format!("{} panicked at {}:{}: {}", p.context, p.file, p.line, p.message),
                 })
@@ -277,6 +280,8 @@ pub const RUN_TIMEOUT_MS: i32 = 6_000;
 fn normalise_ctx(s: &str) -> String {
     // keep the seam and the entry point ("deliver_corrupt/load_incremental"), drop the input-specific rest
     let s = s.split(|c| c == ':' || c == '(').next().unwrap_or(s).trim();
+    // properties with fine-grained signatures name the call battery rather than the event kind that preceded it
+    let s = if s.contains("/") && !s.starts_with("deliver_corrupt") && !s.starts_with("crash_corrupt") && !s.starts_with("id_fuzz") && !s.starts_with("recv_corrupt") { s.split_once('/').map(|x| x.1).unwrap_or(s) } else { s };
     // digits carry run-specific offsets: collapse them
     let mut out = String::new();
     let mut last = false;
